@@ -96,10 +96,10 @@ func init() {
 	}
 	// math/bits
 	intrinsics["math/bits.TrailingZeros64"] = func(e *Exec, st *State, fn *ssa.Function, args []*smt.Term, resType types.Type, pos token.Pos) *smt.Term {
-		return tzN(args[0], 64)
+		return e.tzAx(args[0], 64)
 	}
 	intrinsics["math/bits.TrailingZeros32"] = func(e *Exec, st *State, fn *ssa.Function, args []*smt.Term, resType types.Type, pos token.Pos) *smt.Term {
-		return tzN(args[0], 32)
+		return e.tzAx(args[0], 32)
 	}
 	intrinsics["math/bits.LeadingZeros64"] = func(e *Exec, st *State, fn *ssa.Function, args []*smt.Term, resType types.Type, pos token.Pos) *smt.Term {
 		return lzN(args[0], 64)
@@ -199,4 +199,25 @@ func stdInline(name string) bool {
 		}
 	}
 	return false
+}
+
+// tzAx: trailing-zero count as an uninterpreted function fully characterised by axiom instances:
+// tz(0)=w; x!=0 => tz<w, bit tz of x is set, all lower bits are clear.
+func (e *Exec) tzAx(x *smt.Term, w int) *smt.Term {
+	if x.IsConst() || x.HasBound {
+		return tzN(x, w)
+	}
+	r := smt.App(fmt.Sprintf("tz%d", w), BV64, x)
+	rw := smt.Extract(r, w-1, 0)
+	if w > 64 {
+		rw = smt.ZeroExt(r, w)
+	}
+	zero := smt.Const(w, 0)
+	one := smt.Const(w, 1)
+	e.Axiom(smt.BVUle(r, smt.Const(64, uint64(w))))
+	e.Axiom(smt.Eq(smt.Eq(x, zero), smt.Eq(r, smt.Const(64, uint64(w)))))
+	e.Axiom(smt.Implies(smt.Neq(x, zero), smt.And(
+		smt.Eq(smt.BVAnd(smt.BVLshr(x, rw), one), one),
+		smt.Eq(smt.BVAnd(x, smt.BVSub(smt.BVShl(one, rw), one)), zero))))
+	return r
 }
